@@ -14,10 +14,31 @@ import (
 type Lock struct {
 	Base
 	cu catchUp
+	// watchSeen: per node, the sequence numbers of the events at which its watch-only flag was set
+	watchSeen map[int][]int
 }
 
-// Event applies the online part: the catch-up rule for restarted nodes.
-func (m *Lock) Event(c *vnet.Cluster, e *vnet.Event) { m.cu.rule(&m.Base, c, e) }
+// Event applies the online part: the catch-up rule for restarted nodes, and notes when the
+// application had a node's watch-only flag set.
+func (m *Lock) Event(c *vnet.Cluster, e *vnet.Event) {
+	m.cu.rule(&m.Base, c, e)
+	if e.Node >= 0 && c.Nodes[e.Node].Watch {
+		if m.watchSeen == nil {
+			m.watchSeen = map[int][]int{}
+		}
+		m.watchSeen[e.Node] = append(m.watchSeen[e.Node], e.Seq)
+	}
+}
+
+// watchBetween tells whether node id was seen with its watch-only flag set at an event in (from, to].
+func (m *Lock) watchBetween(id, from, to int) bool {
+	for _, q := range m.watchSeen[id] {
+		if q > from && q <= to {
+			return true
+		}
+	}
+	return false
+}
 
 type lockState struct {
 	height     uint32
@@ -63,7 +84,9 @@ func (m *Lock) End(c *vnet.Cluster) {
 			}
 			m.inc("sends-checked")
 			h := p.Hash()
-			if int(p.View) < s.maxView {
+			// a retransmission of the node's original (pre)commit carries the original's view by definition
+			retrans := (p.T == dbft.CommitType && s.commit != nil && s.commit.Hash() == h) || (p.T == dbft.PreCommitType && s.preCommit != nil && s.preCommit.Hash() == h)
+			if int(p.View) < s.maxView && !retrans {
 				m.fail(c, "view-decreased", "n%d sent [%s] after a message of view %d at the same height", n.ID, p.Short(), s.maxView)
 			}
 			if int(p.View) > s.maxView {
@@ -141,12 +164,20 @@ func (m *Lock) End(c *vnet.Cluster) {
 					}
 				}
 			}
-			if s.lockView >= 0 && int(p.View) != s.lockView {
+			if s.lockView >= 0 && int(p.View) != s.lockView && !retrans {
 				m.fail(c, "view-moved-after-commit", "n%d sent [%s] in view %d after its (pre)commit of view %d", n.ID, p.Short(), p.View, s.lockView)
 			}
 		case vnet.KEpoch:
 			if e.H == e.TH && e.Note != "first" {
-				if s.lockView >= 0 && s.height == e.H {
+				if s.lockView >= 0 && s.height == e.H && m.watchBetween(n.ID, s.lockSeq, e.Seq) {
+					// DESIGN 5.19: the commit lock is conditioned on !WatchOnly(); a committed node whose
+					// watch-only flag is set follows view changes like any observer
+					m.fail(c, "view-change-after-commit-while-watch-only", "n%d entered view %d at height %d after its (pre)commit of view %d while its watch-only flag was set", n.ID, e.V, e.H, s.lockView)
+					s.lockView, s.lockSeq = int(e.V), e.Seq // the lock moves with the node; a second signature stays a violation
+					if s.maxView < int(e.V) {
+						s.maxView = int(e.V)
+					}
+				} else if s.lockView >= 0 && s.height == e.H {
 					m.fail(c, "view-change-after-commit", "n%d entered view %d at height %d after its (pre)commit of view %d", n.ID, e.V, e.H, s.lockView)
 				}
 				m.inc("view-entries-seen")
@@ -425,9 +456,16 @@ type Wake struct {
 	Base
 	callEpoch map[int][2]uint32
 	resetIn   map[int]bool
+	// watchIn: the epoch (height, view) in which the node was last seen with its watch-only flag set.
+	// The library arms no timer for a watch-only node and ignores its timeouts, so a node whose flag
+	// is switched off in the middle of an epoch has no timer until the next (re)initialisation: the
+	// recorded finding of DESIGN 5.19 (signature no-timer-after-watch-only-flag-switched-off).
+	watchIn map[int][2]uint32
 }
 
-func NewWake() *Wake { return &Wake{callEpoch: map[int][2]uint32{}, resetIn: map[int]bool{}} }
+func NewWake() *Wake {
+	return &Wake{callEpoch: map[int][2]uint32{}, resetIn: map[int]bool{}, watchIn: map[int][2]uint32{}}
+}
 
 func (m *Wake) Event(c *vnet.Cluster, e *vnet.Event) {
 	if e.Node < 0 {
@@ -438,6 +476,9 @@ func (m *Wake) Event(c *vnet.Cluster, e *vnet.Event) {
 		return
 	}
 	d := n.D
+	if n.Watch && d.Validators != nil {
+		m.watchIn[n.ID] = [2]uint32{d.BlockIndex, uint32(d.ViewNumber)}
+	}
 	switch e.Kind {
 	case vnet.KAPICall:
 		if e.Depth == 0 {
@@ -464,6 +505,10 @@ func (m *Wake) Event(c *vnet.Cluster, e *vnet.Event) {
 		}
 		m.inc("api-returns-checked:" + e.API)
 		t := n.Timer
+		if w, ok := m.watchIn[n.ID]; ok && w == [2]uint32{d.BlockIndex, uint32(d.ViewNumber)} && (!t.Armed() || !t.Pending() || t.Height() != d.BlockIndex || t.View() != d.ViewNumber) {
+			m.fail(c, "no-timer-after-watch-only-flag-switched-off", "n%d returned from %s at (%d,%d) as an active validator without a pending timer for that epoch: its watch-only flag was set earlier in this epoch (no timer is armed for, and no timeout handled by, a watch-only node) and has been switched off since", n.ID, e.API, d.BlockIndex, d.ViewNumber)
+			return
+		}
 		switch {
 		case !t.Armed():
 			m.fail(c, "no-timer", "n%d returned from %s at (%d,%d) without any timer armed", n.ID, e.API, d.BlockIndex, d.ViewNumber)
